@@ -930,6 +930,7 @@ void run_property(pbt::Source& src, bool model) {
     pbt::label(e.info.binary ? "search:binary" : "search:linear");
     pbt::label(cap_class(e.info.leaf, e.info.inner));
     if (e.info.tracked) pbt::label("elem:Tracked");
+    if (e.info.raw) pbt::label("api:BTree_base_class");
     History h(src, e, model);
     h.run();
 }
